@@ -247,7 +247,10 @@ class RecordingEvaluator:
         for rule in self.nan:
             if rule.get("call") is not None and rule["call"] != k:
                 continue
-            rows = np.flatnonzero((c.realizations == rule["r"]) & (perts == rule["p"]))
+            if rule.get("row") is not None:
+                rows = np.array([rule["row"]]) if rule["row"] < len(c.realizations) else np.array([], dtype=int)   # one row of a batch
+            else:
+                rows = np.flatnonzero((c.realizations == rule["r"]) & (perts == rule["p"]))
             vals[rows, rule["col"]] = np.nan
         if self.garbage is not None:
             for j in range(self.n_obj):
